@@ -480,7 +480,7 @@ func TestC02(t *testing.T) {
 		Run:         c02Run,
 		// directed: long chains whose parts arrive in one burst (a node that was partitioned or joins late):
 		// everything over P2P only, everything over DA only, and mixed
-		Directed: []*sim.Scn{c02Long(150, 2), c02Long(150, 1), c02Long(97, 0)},
+		Directed:    []*sim.Scn{c02Long(150, 2), c02Long(150, 1), c02Long(97, 0)},
 		QuickBudget: 30 * time.Second, ThoroughBudget: 12 * time.Minute,
 	})
 }
